@@ -190,6 +190,11 @@ def _root_cause(text):
         # a path from the iterator through a pointer (x.link, x.link.prop)
         if re.search(r'\b' + v + r'\.\w+', body):
             return ':for-iterator-path-assumed-disjoint'
+        # the iterator is one operand of a UNION / set literal whose other operand repeats
+        # in every iteration
+        if re.search(r'\{[^{}]*\b' + v + r'\b[^{}]*\}', body) or re.search(
+                r'(\b' + v + r'\b\)* union )|( union \(*' + v + r'\b)', body):
+            return ':for-iterator-union-operand'
     return ''
 
 
